@@ -494,8 +494,19 @@ class IMAPClientCommand:
         Do the actual parsing of the IMAP command. This is separated from the
         init method so that if we hit a parsing exception the actual object
         gets created at least and potentially has self.tag set.
+
+        Whatever the client sent, the outcome is this command or a
+        `BadCommand`: that is what our callers answer with a `BAD`.
         """
-        self._parse()
+        try:
+            self._parse()
+        except (ValueError, RecursionError) as exc:
+            # A number with more digits than `int()` is willing to convert,
+            # search keys or parenthesized lists nested deeper than we can
+            # follow... the command is not one we can make sense of. Say so
+            # instead of dropping the connection.
+            #
+            raise BadSyntax(f"unable to parse command: {exc}") from exc
         return self
 
     ####################################################################
